@@ -20,6 +20,7 @@ Inductive cop :=
 | cStart (bk hid un res : N)                        (* Resolve / AddRequest of (bk, hid); counts after *)
 | cData (pid out un res : N) (newk : list N)        (* OnData(payload): result class 0 ok / 1 NoRequester / 2 other,
                                                        counts after, buckets in which (bucket, H payload) became readable *)
+| cFail (pid i un res : N) (newk : list N)          (* OnData whose i-th database write (0-based) failed: an error was returned *)
 | cNoH (pid un res : N)                             (* OnData under a bucket without hasher -> ErrNoHasher *)
 | cFlush                                            (* Flush(true) returned nil *)
 | cDataQ (pid : N)                                  (* OnData inside syncProcessor.HandleData: not observed individually *)
@@ -84,14 +85,15 @@ Section Tbl.
     (N.of_nat (unresolved s) =? un) && (N.of_nat (resolved s) =? res).
 
   Definition out_code (o : out) : N :=
-    match o with ROk => 0 | RNoRequester => 1 | RNoHasher => 3 end.
+    match o with ROk => 0 | RNoRequester => 1 | RNoHasher => 3 | RFail => 2 end.
 
-  (* buckets of the entries that a delivery added, all of which must be keyed by h *)
+  (* buckets in which (bucket, h) became readable by a delivery; every added entry must be keyed by h *)
   Definition new_buckets (h : bytes) (s s' : state) : option (list N) :=
     let e := entries (dbs s) in let e' := entries (dbs s') in
     let added := firstn (length e' - length e) e' in
     if forallb (fun kv => bytes_eqb (snd (fst kv)) h) added
-    then Some (map (fun kv => fst (fst kv)) added) else None.
+    then Some (filter (fun bk => negb (db_has (dbs s) (bk, h))) (map (fun kv => fst (fst kv)) added))
+    else None.
 
   Definition check_op (s : state) (c : cop) : state * bool :=
     match c with
@@ -102,6 +104,14 @@ Section Tbl.
         let r := on_data tH tC s [pid] in
         let s' := fst r in
         (s', (out_code (snd r) =? o) && counts_ok s' un res &&
+             match new_buckets (tH [pid]) s s' with
+             | Some bs => subset bs newk && subset newk bs
+             | None => false
+             end)
+    | cFail pid i un res newk =>
+        let r := on_data_fail tH tC s [pid] (N.to_nat i) in
+        let s' := fst r in
+        (s', (out_code (snd r) =? 2) && counts_ok s' un res &&
              match new_buckets (tH [pid]) s s' with
              | Some bs => subset bs newk && subset newk bs
              | None => false
@@ -241,7 +251,8 @@ Fixpoint p_ops (fuel : nat) (s : list N) : option (list cop) :=
                       if o =? 3 then k (cNoH a b c) r3 else
                       match r3 with
                       | d :: e :: r4 =>
-                          if o =? 2 then k (cData a b c d (mask_list e)) r4 else None
+                          if o =? 2 then k (cData a b c d (mask_list e)) r4 else
+                          if o =? 10 then k (cFail a b c d (mask_list e)) r4 else None
                       | _ => None
                       end
                   end
